@@ -8,3 +8,4 @@ ghost = REG.ghost
 loop = REG.loop
 lemma = REG.lemma
 exception = REG.exception
+builder = REG.builder
